@@ -13,6 +13,8 @@ SPECIALS = {
     'dup_extra': (['<pad>', '<bos>', '<pad>', '<x>', '<bos>'], '<pad>', ['<bos>', '<bos>'], ['<x>']),
     'minimal': (['<pad>'], '<pad>', [], []),
     # several distinct prefix and suffix tokens (their order matters)
+    # special tokens that contain regex metacharacters (the special-token pattern must match them literally)
+    'meta': (['<pad>', '<|x|>', 'a.b'], '<pad>', [], ['<|x|>']),
     'two_prefix': (['<unk>', '<bos>', '<eos>', '<pad>'], '<pad>', ['<bos>', '<pad>'], ['<eos>', '<unk>']),
 }
 
